@@ -93,6 +93,8 @@ type cont interface {
 	dim() int
 	read(i, how int) float64
 	write(i, x, how int)
+	setVar(i, how int) error // Real element types: non-zero derivative, value unchanged
+	deriv(i int) bool        // element i carries a non-zero derivative
 	reset()
 	swap(i, k int)
 	swapRows(i, k int) error // square matrices only
@@ -106,11 +108,13 @@ type cont interface {
 	appendObj(w cont) (cont, error)                        // v.AppendVector(w), w a vector with its own history
 	viewWalk(word []int, fi, fj, how int) ([][]int, error) // matrix views only (word: 5 ints per step)
 	viewWrite(word []int, i, j, x, how int) error
+	viewBulk(word []int, name string, b []int, x, how int) error // whole-view operation, view as receiver
 	arith(name string, w []int, x int, operand string) error
 	iterFrom(from int, how int) (iter, error)
 	walk(how int) ([][]int, error)
 	jointWalk(w []int, how int) ([][]int, error)
 	str() string
+	str0() string // type name
 	private() (privState, bool)
 }
 
@@ -179,6 +183,8 @@ func (c *vecCont) write(i, x, how int) {
 	}
 }
 
+func (c *vecCont) setVar(i, how int) error { return setVariable(c.at(i), how) }
+func (c *vecCont) deriv(i int) bool        { return hasDeriv(c.v.ConstAt(i)) }
 func (c *vecCont) reset()                  { c.v.Reset() }
 func (c *vecCont) swap(i, k int)           { c.v.Swap(i, k) }
 func (c *vecCont) swapRows(i, k int) error { return errUnsupported }
@@ -291,8 +297,9 @@ func (c *vecCont) appendObj(w cont) (cont, error) {
 	}
 	return &vecCont{c.t, c.v.AppendVector(o.v), c.concrete}, nil
 }
-func (c *vecCont) viewWalk(word []int, fi, fj, how int) ([][]int, error) { return nil, errUnsupported }
-func (c *vecCont) viewWrite(word []int, i, j, x, how int) error          { return errUnsupported }
+func (c *vecCont) viewWalk(word []int, fi, fj, how int) ([][]int, error)       { return nil, errUnsupported }
+func (c *vecCont) viewWrite(word []int, i, j, x, how int) error                { return errUnsupported }
+func (c *vecCont) viewBulk(word []int, name string, b []int, x, how int) error { return errUnsupported }
 
 var concreteName = map[string]string{"vaddv": "VADDV", "vsubv": "VSUBV", "vmulv": "VMULV", "set": "SET",
 	"vmuls": "VMULS", "vadds": "VADDS", "vsubs": "VSUBS", "vdivs": "VDIVS", "vsubself": "VSUBV", "vmulself": "VMULV"}
@@ -385,6 +392,34 @@ func (c *vecCont) iterFrom(from, how int) (iter, error) {
 	}
 }
 
+// hasDeriv: the scalar carries a non-zero first or second derivative (Real element types)
+func hasDeriv(s ConstScalar) bool {
+	if s == nil || (reflect.ValueOf(s).Kind() == reflect.Ptr && reflect.ValueOf(s).IsNil()) {
+		return false
+	}
+	if s.GetOrder() < 1 {
+		return false
+	}
+	n := s.GetN()
+	for i := 0; i < n; i++ {
+		if s.GetDerivative(i) != 0 {
+			return true
+		}
+	}
+	if s.GetOrder() >= 2 {
+		for i := 0; i < n; i++ {
+			for j := 0; j < n; j++ {
+				if s.GetHessian(i, j) != 0 {
+					return true
+				}
+			}
+		}
+	}
+	return false
+}
+
+const tag = 10 // the specification writes an element with a non-zero derivative as value + 10
+
 func valOf(s ConstScalar) int {
 	if s == nil || (reflect.ValueOf(s).Kind() == reflect.Ptr && reflect.ValueOf(s).IsNil()) {
 		return 0
@@ -393,7 +428,31 @@ func valOf(s ConstScalar) int {
 	if !ok {
 		panic(fmt.Sprintf("non-integral element %v", s.GetFloat64()))
 	}
+	if hasDeriv(s) {
+		x += tag
+	}
 	return x
+}
+
+// setVariable gives the scalar a non-zero derivative and leaves its value alone: SetVariable (gradient), or
+// a Hessian entry only (gradient zero).
+func setVariable(s Scalar, how int) error {
+	ms, ok := s.(MagicScalar)
+	if !ok {
+		return errUnsupported
+	}
+	if how%2 == 0 {
+		if err := ms.SetVariable(0, 1, 1); err != nil {
+			panic(err)
+		}
+		return nil
+	}
+	if err := ms.SetVariable(0, 1, 2); err != nil {
+		panic(err)
+	}
+	ms.SetDerivative(0, 0)
+	ms.SetHessian(0, 0, 1)
+	return nil
 }
 
 func (c *vecCont) walk(how int) ([][]int, error) {
@@ -443,7 +502,9 @@ func (c *vecCont) jointWalk(w []int, how int) ([][]int, error) {
 	return r, nil
 }
 
-func (c *vecCont) str() string { return fmt.Sprint(c.v) + c.v.Table() }
+func (c *vecCont) str0() string { return fmt.Sprintf("%T", c.v) }
+func (c *matCont) str0() string { return fmt.Sprintf("%T", c.m) }
+func (c *vecCont) str() string  { return fmt.Sprint(c.v) + c.v.Table() }
 
 // ---------------------------------------------------------------- private state (reflection, read-only)
 
@@ -462,8 +523,22 @@ func scalarState(v reflect.Value) (isNil bool, nonzero bool) {
 		if v.IsNil() {
 			return true, false
 		}
-		f := v.Elem().FieldByName("Value")
-		return false, f.IsValid() && f.Float() != 0
+		e := v.Elem()
+		f := e.FieldByName("Value")
+		nz := f.IsValid() && f.Float() != 0
+		if d := e.FieldByName("Derivative"); d.IsValid() && d.Kind() == reflect.Slice {
+			for i := 0; i < d.Len(); i++ {
+				nz = nz || d.Index(i).Float() != 0
+			}
+		}
+		if h := e.FieldByName("Hessian"); h.IsValid() && h.Kind() == reflect.Slice {
+			for i := 0; i < h.Len(); i++ {
+				for j := 0; j < h.Index(i).Len(); j++ {
+					nz = nz || h.Index(i).Index(j).Float() != 0
+				}
+			}
+		}
+		return false, nz
 	case reflect.Struct: // Float64{ptr *float64}, Int8{ptr *int8}, ...
 		p := v.Field(0)
 		if p.Kind() != reflect.Ptr {
@@ -583,6 +658,14 @@ func (c *matCont) write(i, x, how int) {
 		s.Set(NewScalar(c.t, float64(x)))
 	}
 }
+func (c *matCont) setVar(i, how int) error {
+	r, k := c.rc(i)
+	return setVariable(c.m.At(r, k), how)
+}
+func (c *matCont) deriv(i int) bool {
+	r, k := c.rc(i)
+	return hasDeriv(c.m.ConstAt(r, k))
+}
 func (c *matCont) reset() { c.m.Reset() }
 func (c *matCont) swap(i, k int) {
 	r1, c1 := c.rc(i)
@@ -689,6 +772,9 @@ func (c *matCont) viewWalk(word []int, fi, fj, how int) ([][]int, error) {
 			if y, _ := toInt(view.ConstAt(i, j).GetFloat64()); y != x {
 				panic("Float64At and ConstAt disagree on a view")
 			}
+			if hasDeriv(view.ConstAt(i, j)) {
+				x += tag
+			}
 			r = append(r, []int{-1, i*vc + j, x})
 		}
 	}
@@ -696,6 +782,44 @@ func (c *matCont) viewWalk(word []int, fi, fj, how int) ([][]int, error) {
 		_ = fmt.Sprint(view)
 	}
 	return r, nil
+}
+
+func (c *matCont) viewBulk(word []int, name string, b []int, x, how int) error {
+	_, view := c.view(word, false)
+	var bview Matrix
+	if b != nil {
+		other := &matCont{c.t, c.mk(b), c.rows, c.cols}
+		_, bview = other.view(word, false)
+	}
+	switch name {
+	case "w_reset":
+		view.Reset()
+	case "w_identity":
+		view.SetIdentity()
+	case "w_set":
+		if how%3 == 2 { // argument of another matrix type: the generic path
+			vr, vc := bview.Dims()
+			d := NullDenseMatrix(c.t, vr, vc)
+			d.Set(bview)
+			view.Set(d)
+		} else {
+			view.Set(bview)
+		}
+	case "w_mdotm":
+		vr, _ := view.Dims()
+		id := NullSparseMatrix(c.t, vr, vr)
+		id.SetIdentity()
+		view.MdotM(id, bview)
+	case "w_muls":
+		view.MmulS(view, NewScalar(c.t, float64(x)))
+	case "w_addm":
+		view.MaddM(view, bview)
+	case "w_map":
+		view.Map(func(s Scalar) { s.Neg(s) })
+	default:
+		return fmt.Errorf("unknown view operation %s", name)
+	}
+	return nil
 }
 
 func (c *matCont) viewWrite(word []int, i, j, x, how int) error {
